@@ -164,7 +164,9 @@ def main(tier):
         res = replay_main(sys.argv[2], make_harness)
         print('REPLAY: %s' % ('differs from the POSIX twin / sanitizer report' if (res['x'] or crash_class(res)) else 'history agrees with the POSIX twin on the current tree'))
         return 1 if (res['x'] or crash_class(res)) else 0
-    h = make_harness()
+    h, rc_ = harness_or_violation('C12', tier, make_harness)
+    if h is None:
+        return rc_
     ex = Explorer('C12', tier, h, 'fileio', 'c12.py')
     ex.deadline = time.time() + (240 if tier == 'quick' else 900)
     depth = bfs(ex, alphabet, make_judge(ex), 3 if tier == 'quick' else 4, describe)
